@@ -240,8 +240,9 @@ class Gen:
         if kind == "decl":
             return ("ann", v, rng.choice(["int", "'@T'"]), None), bound
         if kind == "import":
-            if rng.random() < 0.5:
-                return ("import", "math", rng.choice([None, "e"])), bound | {"math"} - {"math"}
+            if rng.random() < 0.6:
+                # `import os.path` binds `os`
+                return ("import", rng.choice(["math", "os.path"]), rng.choice([None, None, "e"])), bound
             return ("from", "math", "floor", rng.choice([None, "d"])), bound
         if kind == "expr":
             return ("expr", self.expr(bound)), bound
@@ -313,7 +314,17 @@ class Gen:
         np = self.nparams if self.nparams is not None else self.rng.randrange(0, 4)
         params = VARS[:np]
         body, _ = self.block(set(params), 0, [size])
-        if not generator and self.rng.random() < 0.7:
+        r = self.rng.random()
+        if r < 0.15:
+            # the function ENDS with a compound statement whose own last statement is a return, and that
+            # return may not be reached: a swallowed exception falls off the end of the function
+            ret = ("return", self.expr(set(params) | set(VARS[:2])))
+            maybe = ("if", "C(%d)" % self.nk(), [("expr", "R(%d)" % self.nk())], [])
+            if self.rng.random() < 0.6:
+                body.append(("with", "CM(%d, True)" % self.nk(), None, [maybe, ret]))
+            else:
+                body.append(("try", [maybe, ret], [("Boom", None, [("pass",)])], [], []))
+        elif not generator and r < 0.75:
             body.append(("return", self.expr(set(params) | set(VARS[:2]))))
         return {"name": name, "params": params, "body": body, "generator": generator}
 
@@ -406,7 +417,7 @@ def render(fn, twin=False, subst=None, ann_params=None, decl=None):
                     lines.extend(post_bind([s[1]], ind))
             elif k == "import":
                 lines.append("%simport %s%s" % (ind, s[1], " as " + s[2] if s[2] else ""))
-                lines.extend(post_bind([s[2] or s[1]], ind))
+                lines.extend(post_bind([s[2] or s[1].split(".")[0]], ind))
             elif k == "from":
                 lines.append("%sfrom %s import %s%s" % (ind, s[1], s[2], " as " + s[3] if s[3] else ""))
                 lines.extend(post_bind([s[3] or s[2]], ind))
@@ -523,7 +534,7 @@ def bound_names(fn):
             elif k == "ann" and s[3] is not None:
                 names.append(s[1])
             elif k == "import":
-                names.append(s[2] or s[1])
+                names.append(s[2] or s[1].split(".")[0])
             elif k == "from":
                 names.append(s[3] or s[2])
             elif k == "yield" and s[1]:
